@@ -111,6 +111,35 @@ def run(chk):
                         "fails although the semantics give a value" if r["k"] == "err" else "wrong value")
                 chk.disagree(f"c01:{c['fam']}:{op_key(c['p'])}:{name}:{src[:90]}", {"src": src, "config": name, "cmd": cmd},
                              c["out"] if c["out"]["k"] == "err" else tla_to_py(c["out"]["v"]), r, what)
+    # ---- object programs with inheritance: the object model (Objects.tla) prescribes every field and the manifestation
+    from render import obj_chain
+    ofams = ["plus", "refs", "omit"]
+    ors = run_tlc_many([dict(module="Objects", cfg=f"MC_Objects_{f}.cfg", workers=5, timeout=3000, xmx="8g") for f in ofams], parallel=3)
+    ocmds, ometa = [], []
+    for f, r in zip(ofams, ors):
+        chk.add_tlc(r, f"Objects[{f}]: field values and manifestation of inheritance chains")
+        rep = r.replay
+        if not thorough and len(rep) > 1200:
+            rng.shuffle(rep)
+            rep = rep[:1200]
+        for c in rep:
+            O = obj_chain(c["chain"], rng.randrange(2))
+            for name in ("a", "b"):
+                g = c["obs"][name]["get"]
+                ocmds.append({"cmd": "eval", "id": len(ocmds), "src": f"{O}.{name}"})
+                ometa.append((c, name, ("val", g["n"]) if g["k"] == "num" else ("err",)))
+            m = c["manifest"]
+            ocmds.append({"cmd": "eval", "id": len(ocmds), "src": O})
+            ometa.append((c, "manifest", ("val", {x["f"]: x["n"] for x in m["fs"]}) if m["k"] == "obj" else ("err",)))
+    for envk, extra in (("ir", None), ("peg", {"JRSONNET_LEGACY_PARSER": "1"})):
+        for cmd, r, (c, what, exp) in zip(ocmds, run_cmds(ocmds, env_extra=extra), ometa):
+            chk.count(("objchain", envk, cmd["src"]))
+            ok = (r["k"] == "val" and common.json_equal(json.loads(r["out"]), exp[1])) if exp[0] == "val" else r["k"] == "err"
+            if not ok:
+                chk.disagree(f"c01:{c['fam']}:{envk}:{what}:{cmd['src'][:100]}", {"src": cmd["src"], "parser": envk}, exp, r,
+                             "an inheritance chain evaluates differently from the object model")
+    chk.extra["object_chain_programs"] = len(ocmds)
+
     chk.traces += len(cases)
     for c in (cases[7], cases[len(cases) // 2]):
         chk.sample({"program": ast_src(c["p"], STYLE_MIN), "model_outcome": c["out"]})
